@@ -498,11 +498,13 @@ def spell(rng, uses, args, abbr=True, stats=None):
             while j < len(uses) and _flaglike(uses[j]) and uses[j].arg.short and a.short and rng.chance(3, 4):
                 run.append(uses[j])
                 j += 1
-            if len(run) > 1:
+            can_end = (j < len(uses) and not _flaglike(uses[j]) and uses[j].arg.kind in ('i', 's', 'oi')
+                       and bool(uses[j].arg.short) and not uses[j].arg.positional and bool(a.short))
+            ends = can_end and rng.chance(1, 2)
+            if len(run) > 1 or ends:
                 # optionally end the group with a value-taking short key (glued or separate value)
                 grp = '-' + ''.join(x.arg.short for x in run)
-                if j < len(uses) and not _flaglike(uses[j]) and uses[j].arg.kind in ('i', 's', 'oi') \
-                        and uses[j].arg.short and not uses[j].arg.positional and rng.chance(1, 2):
+                if ends:
                     v = uses[j].values[0]
                     if rng.chance(1, 2) and v != '':
                         words.append(grp + uses[j].arg.short + v)
